@@ -1222,6 +1222,8 @@ func replay(r *core.Run) {
 func Run(r *core.Run) {
 	r.Assume("the binding graph is observed by execution: every declaration is initialised with a marker (declarations whose initialisers write one binding share it), every reference logs the value it reads immediately and again after the program has finished; all functions are called and all blocks entered, so never-executed code is not covered")
 	r.Assume("TDZ-dependent reads, labels and private names are not generated; direct eval and with only occur in sloppy scripts compiled without bundling (esbuild documents that direct eval does not pin top-level names of bundled ES modules)")
+	r.Assume("bundles: every file has a wrapper kind (plain ES module, CommonJS via module.exports / exports.x / require()d without export syntax, ES module that is require()d / import()ed without splitting); CommonJS files carry a \"use strict\" directive; wrapped files are not combined with code splitting; a free 'arguments' at the top level of a file is not generated when a file of the chunk is wrapped (the wrapper closure's own arguments object is visible there)")
+	r.Assume("the set of generated trees is a function of VERIF_SEED and the tier only (fixed rounds and walks, no wall-clock cut)")
 	r.Assume("the abstract minifier sequence of Rename.tla is not the character-frequency order of the real minifier: the model checks the design of the slot assignment, the replay checks the real names")
 	if r.Replay != "" {
 		replay(r)
